@@ -166,7 +166,76 @@ func H_c16e(p []int) {
 	vAssert(n == 0, "C16/fprint-count")
 }
 
+var c16Pre = []string{"%05d|", "%-6s|", "%.1f|", "%+v|", "%#x|", "%8.3v|"}
+
+type sfSeq struct {
+	pre  string
+	parg interface{}
+	args []interface{}
+	pf   string
+}
+
+func (x sfSeq) SafeFormat(w redact.SafePrinter, verb rune) {
+	w.Printf(x.pre, x.parg)
+	if x.pf == "" {
+		w.Print(x.args...)
+	} else {
+		w.Printf(x.pf, x.args...)
+	}
+}
+
+// H_c16s: several Print/Printf calls on one SafePrinter: each prints
+// like the stand-alone route whatever the calls before it did.
+// p = [kind, pre-directive, n, printf(0/1)]
+func H_c16s(p []int) {
+	kind, pi, n, pf := p[0], p[1], p[2], p[3]
+	s, i := symLeaves(-1, n, false)
+	vSite(fmt.Sprintf("sequence kind=%d pre=%q printf=%d", kind, c16Pre[pi], pf))
+	var parg interface{} = 7
+	if pi == 1 {
+		parg = "ab"
+	} else if pi == 2 {
+		parg = 2.5
+	} else if pi == 3 {
+		parg = pubStruct{"a", 1}
+	}
+	format := ""
+	if pf == 1 {
+		format = "x%vy%vz"
+	}
+	args := func() []interface{} { return []interface{}{mkValue(kind, s, i), 42} }
+	first := []byte(redact.Sprintf(c16Pre[pi], parg))
+	var second []byte
+	if pf == 0 {
+		second = []byte(redact.Sprint(args()...))
+	} else {
+		second = []byte(redact.Sprintf(format, args()...))
+	}
+	want := mergeAdj(cat(first, second))
+	r1 := []byte(redact.Sprintfn(func(w redact.SafePrinter) {
+		w.Printf(c16Pre[pi], parg)
+		if pf == 0 {
+			w.Print(args()...)
+		} else {
+			w.Printf(format, args()...)
+		}
+	}))
+	vObserve("sprintfn", r1)
+	vAssert(bytesEq(mergeAdj(r1), want), "C16/sprintfn-sequence-agrees")
+	r2 := []byte(redact.Sprint(sfSeq{c16Pre[pi], parg, args(), format}))
+	vAssert(bytesEq(mergeAdj(r2), want), "C16/safeformat-sequence-agrees")
+	var b redact.StringBuilder
+	b.Printf(c16Pre[pi], parg)
+	if pf == 0 {
+		b.Print(args()...)
+	} else {
+		b.Printf(format, args()...)
+	}
+	vAssert(bytesEq(mergeAdj([]byte(b.RedactableString())), want), "C16/builder-sequence-agrees")
+}
+
 func init() {
+	Harnesses["H_c16s"] = H_c16s
 	Harnesses["H_c16"] = H_c16
 	Harnesses["H_c16d"] = H_c16d
 	Harnesses["H_c16e"] = H_c16e
